@@ -88,11 +88,11 @@ func lex(src string) ([]ltok, error) {
 
 // Expr is a contract expression AST node.
 type Expr struct {
-	Op   string  // "ident","int","str","bool","nil","call","sel","index","update","old","forall","exists","addr", or an operator
-	Name string  // ident/call name, selector field, literal text
-	Args []*Expr // operands
-	Vars []BoundVar
-	Trig []*Expr   // all trigger terms (flattened, for dependency scans)
+	Op    string  // "ident","int","str","bool","nil","call","sel","index","update","old","forall","exists","addr", or an operator
+	Name  string  // ident/call name, selector field, literal text
+	Args  []*Expr // operands
+	Vars  []BoundVar
+	Trig  []*Expr   // all trigger terms (flattened, for dependency scans)
 	Trigs [][]*Expr // alternative patterns: each {...} group is one multi-pattern
 }
 
